@@ -403,8 +403,8 @@ func genCfg(seed uint64, n int, tier string, emit func(string, []string, any)) {
 		{path: append(append([]string{}, o...), "info", "license", "name"), vals: []any{""}},
 		{path: append(append([]string{}, o...), "specGeneratorConfig", "outputPath"), vals: []any{"", "./spec/o.json"}},
 		{path: append(append([]string{}, o...), "securitySchemes", "name"), vals: []any{"", "1abc", "ok", "\u00e9a", "\u05d0\u05d1", "\u00a9x", "_x", "\u4e2d"}},
-		{path: append(append([]string{}, o...), "securitySchemes", "type"), vals: []any{"apiKey", "http", "oauth2", "openIdConnect", "magic", ""}},
-		{path: append(append([]string{}, o...), "securitySchemes", "in"), vals: []any{"header", "query", "cookie", "body", ""}},
+		{path: append(append([]string{}, o...), "securitySchemes", "type"), vals: []any{"apiKey", "http", "oauth2", "openIdConnect", "magic", "", "APIKEY", "apikey", "Http", "OAuth2", "openidconnect", " http", "http "}},
+		{path: append(append([]string{}, o...), "securitySchemes", "in"), vals: []any{"header", "query", "cookie", "body", "", "Header", "QUERY", "Cookie", "header "}},
 		{path: append(append([]string{}, o...), "securitySchemes", "scheme"), vals: []any{"bearer", "basic", "magic"}},
 		{path: append(append([]string{}, o...), "securitySchemes", "description"), vals: []any{""}},
 		{path: append(append([]string{}, o...), "securitySchemes", "fieldName"), vals: []any{"", "9x", "x-key", "\u05d0-key", "\u00d7x", "-x"}},
@@ -421,7 +421,9 @@ func genCfg(seed uint64, n int, tier string, emit func(string, []string, any)) {
 			// doublestar shapes: `**` over zero / one / two directories, alternation, `?`, a `*` directory
 			[]any{"./ctl/**/*.go"}, []any{"./**/*.go"}, []any{"./ctl/sub/**/*.go"}, []any{"./ctl/**/d.go"}, []any{"**/c.go"}, []any{"./ctl/**"},
 			[]any{"./ctl/{a,b}.go"}, []any{"./ctl/{b,sub/c}.go"}, []any{"./ctl/?.go"}, []any{"./ctl/*/c.go"}, []any{"./ctl/*/*/d.go"}, []any{"./ctl/*/d.go"},
-			[]any{"./ctl/sub/*.go", "./ctl/a.go"}}},
+			[]any{"./ctl/sub/*.go", "./ctl/a.go"},
+			// the extension left open (a pattern is a pattern: nothing is appended to it)
+			[]any{"./ctl/*"}, []any{"./ctl/a.*"}, []any{"./ctl/*.g?"}, []any{"./ctl/sub/*"}, []any{"./ctl/?.*"}, []any{"./ctl/sub/deep/d.g*"}}},
 		{path: []string{"commonConfig", "controllerGlobs"}, del: true},
 	}
 	for _, m := range muts {
